@@ -618,6 +618,8 @@ impl Store {
             }
         }
 
+        #[cfg(xs_verif)]
+        crate::verif::point("append.sending", frame.id.to_u128());
         let _ = self.broadcast_tx.send(frame.clone());
         #[cfg(xs_verif)]
         crate::verif::point("append.broadcast", frame.id.to_u128());
